@@ -1,4 +1,6 @@
-// Package vnet: the part of net used by the listeners, with an injectable in-memory listener.
+// Package vnet is the part of package net that inbucket's SMTP/POP3 listeners use, with an
+// injectable in-memory listener so that the real Start/serve/Drain code runs without TCP inside
+// a synctest bubble (network I/O is not durably blocking and would stall the scheduler).
 package vnet
 
 import (
@@ -11,6 +13,7 @@ type Listener = net.Listener
 type Error = net.Error
 type Conn = net.Conn
 type TCPAddr = net.TCPAddr
+type Addr = net.Addr
 
 func ResolveTCPAddr(network, address string) (*net.TCPAddr, error) {
 	return net.ResolveTCPAddr(network, address)
@@ -28,6 +31,20 @@ func ListenTCP(network string, laddr *net.TCPAddr) (net.Listener, error) {
 	return net.ListenTCP(network, laddr)
 }
 
+func Listen(network, address string) (net.Listener, error) {
+	if Fake != nil {
+		if l := Fake(address); l != nil {
+			return l, nil
+		}
+	}
+	return net.Listen(network, address)
+}
+
+func SplitHostPort(hostport string) (host, port string, err error) { return net.SplitHostPort(hostport) }
+
+// MemListener is an in-memory net.Listener: Accept receives from a channel, Dial hands over one
+// end of a net.Pipe.  After Close every Dial is refused (a closed TCP listener refuses new
+// connections) and Accept fails.
 type MemListener struct {
 	ch     chan net.Conn
 	closed chan struct{}
@@ -46,20 +63,42 @@ func (closedErr) Temporary() bool { return false }
 
 func (l *MemListener) Accept() (net.Conn, error) {
 	select {
+	case <-l.closed:
+		return nil, closedErr{}
+	default:
+	}
+	select {
 	case c := <-l.ch:
 		return c, nil
 	case <-l.closed:
 		return nil, closedErr{}
 	}
 }
+
 func (l *MemListener) Close() error {
 	l.once.Do(func() { close(l.closed) })
 	return nil
 }
+
 func (l *MemListener) Addr() net.Addr { return &net.TCPAddr{} }
 
-// Dial connects a client; fails once the listener is closed.
+// IsClosed reports whether Close was called.
+func (l *MemListener) IsClosed() bool {
+	select {
+	case <-l.closed:
+		return true
+	default:
+		return false
+	}
+}
+
+// Dial connects a client; it fails once the listener is closed.
 func (l *MemListener) Dial() (net.Conn, error) {
+	select {
+	case <-l.closed:
+		return nil, errors.New("connection refused")
+	default:
+	}
 	c1, c2 := net.Pipe()
 	select {
 	case l.ch <- c1:
